@@ -44,6 +44,7 @@ type HarnessCfg struct {
 	MethodSetHook func(e *Exec, x Iface, it *types.Interface) (bool, bool)
 	SymMethods bool
 	ReplayCuts bool
+	QTimeout int // per-query solver budget in ms (0 = tier default)
 	Sweep int // native sampling rounds (trusted-base validation)
 	CtxTimers bool
 	Env map[string]string
@@ -289,6 +290,8 @@ func (l *Loaded) parseDirective(h *HarnessCfg, sp *ssa.Package, line string) {
 		if len(f) >= 3 {
 			h.Env[f[1]] = f[2]
 		}
+	case "qtimeout":
+		h.QTimeout = atoi(f[1])
 	case "native-sweep":
 		h.Sweep = atoi(f[1])
 	case "replay-with-cuts":
